@@ -147,7 +147,7 @@ func (v *LogScopeVariables) Get(s context.Scope, name string) (value.Value, erro
 		return &value.Boolean{Value: false}, nil
 	case REQ_BACKEND_NAME:
 		var name string
-		if v.ctx.Backend != nil {
+		if v.ctx.Backend != nil && v.ctx.Backend.Value != nil {
 			name = v.ctx.Backend.Value.Name.Value
 		}
 		return &value.String{Value: name}, nil
